@@ -115,7 +115,7 @@ def laplacian_filter(f, ftype, order):
     return out
 
 
-def damp_boundary(f, width, dx):
+def damp_boundary(f, width, dx, ramp=True):
     """Boundary-zone damping of one scalar component: for each axis in the order x, y(, z): fill
     the zone with the inner-edge value, then multiply by sin(pi/2 * distance_to_face_cell / (width dx))."""
     if width == 0:
@@ -126,12 +126,14 @@ def damp_boundary(f, width, dx):
         n = f.shape[axis]
         f[_sl(dim, axis, slice(0, width))] = f[_sl(dim, axis, slice(width - 1, width))]
         f[_sl(dim, axis, slice(n - width, n))] = f[_sl(dim, axis, slice(n - width, n - width + 1))]
+        if not ramp:
+            continue  # magnitude bookkeeping: the zone takes the inner-edge magnitude, rounding is relative to it
         dist = np.arange(width) * dx  # distance of cell i from the first cell centre
-        ramp = np.sin(np.pi / 2 * dist / (width * dx))
+        rvals = np.sin(np.pi / 2 * dist / (width * dx))
         sh = [1] * dim
         sh[axis] = width
-        f[_sl(dim, axis, slice(0, width))] *= ramp.reshape(sh)
-        f[_sl(dim, axis, slice(n - width, n))] *= ramp[::-1].reshape(sh)
+        f[_sl(dim, axis, slice(0, width))] *= rvals.reshape(sh)
+        f[_sl(dim, axis, slice(n - width, n))] *= rvals[::-1].reshape(sh)
     return f
 
 
@@ -209,10 +211,10 @@ def ns_step(kind, w, vel, forcing, dt, nu, rho, dx, width, free_stream, filt=Non
         mag = _nbr_max(mag, int(filt[1])) * (2.0 ** min(3, int(filt[1])))
     if dim == 2:
         w = damp_boundary(w, width, dx)
-        mag = damp_boundary(mag, width, dx) if width else mag
+        mag = damp_boundary(mag, width, dx, ramp=False) if width else mag
     else:
         w = np.stack([damp_boundary(c, width, dx) for c in w])
-        mag = np.stack([damp_boundary(c, width, dx) for c in mag]) if width else mag
+        mag = np.stack([damp_boundary(c, width, dx, ramp=False) for c in mag]) if width else mag
     solve = poisson_greens if poisson == "greens" else poisson_neumann
     if dim == 2:
         psi, psi_abs = solve(w, dx)
